@@ -240,6 +240,7 @@ package stdlib
 
 //@ assume-contract time.NewTicker
 //@   pure
+//@   requires d > 0
 //@   nopanic
 //@   ensures result != nil && fresh(result) [ASSUMED]
 
